@@ -151,6 +151,10 @@ func lineSearch(f objective,
     }
     // decrease alpha_j until constraints are satisfied
     for !constraints(alpha_j) {
+      if alpha_j == 0.0 {
+        // not even the initial position is admissible
+        return 0.0, fmt.Errorf("line search failed: constraints are violated for every step length")
+      }
       alpha_j *= 0.5
     }
     yj, gj, err = f(alpha_j)
